@@ -88,6 +88,11 @@ struct Api {
     virtual u16 AHBMRead32(u32 a) = 0;
     virtual void AHBMWrite32(u32 a, u32 v) = 0;
     virtual u16 DMAChan0GetSrcHigh() = 0;
+    virtual u16 DMAChan0GetDstHigh() = 0;
+    virtual u16 ProgramRead(u32 a) = 0;
+    virtual u16 DataReadA32(u32 a) = 0;
+    virtual void DataWriteA32(u32 a, u16 v) = 0;
+    virtual u16 AHBMGet(int what, u16 i) = 0; // 0 unit size, 1 direction, 2 DMA channel
 };
 
 struct CppApi : Api {
@@ -131,6 +136,11 @@ struct CppApi : Api {
     u16 AHBMRead32(u32 a) override { return t->AHBMRead32(a); }
     void AHBMWrite32(u32 a, u32 v) override { t->AHBMWrite32(a, v); }
     u16 DMAChan0GetSrcHigh() override { return t->DMAChan0GetSrcHigh(); }
+    u16 DMAChan0GetDstHigh() override { return t->DMAChan0GetDstHigh(); }
+    u16 ProgramRead(u32 a) override { return t->ProgramRead(a); }
+    u16 DataReadA32(u32 a) override { return t->DataReadA32(a); }
+    void DataWriteA32(u32 a, u16 v) override { t->DataWriteA32(a, v); }
+    u16 AHBMGet(int what, u16 i) override { return what == 0 ? t->AHBMGetUnitSize(i) : what == 1 ? t->AHBMGetDirection(i) : t->AHBMGetDmaChannel(i); }
 };
 
 struct CApi : Api {
@@ -180,6 +190,11 @@ struct CApi : Api {
     u16 AHBMRead32(u32 a) override { return Teakra_AHBMRead32(c, a); }
     void AHBMWrite32(u32 a, u32 v) override { Teakra_AHBMWrite32(c, a, v); }
     u16 DMAChan0GetSrcHigh() override { return Teakra_DMAChan0GetSrcHigh(c); }
+    u16 DMAChan0GetDstHigh() override { return Teakra_DMAChan0GetDstHigh(c); }
+    u16 ProgramRead(u32 a) override { return Teakra_ProgramRead(c, a); }
+    u16 DataReadA32(u32 a) override { return Teakra_DataReadA32(c, a); }
+    void DataWriteA32(u32 a, u16 v) override { Teakra_DataWriteA32(c, a, v); }
+    u16 AHBMGet(int what, u16 i) override { return what == 0 ? Teakra_AHBMGetUnitSize(c, i) : what == 1 ? Teakra_AHBMGetDirection(c, i) : Teakra_AHBMGetDmaChannel(c, i); }
 };
 
 // ------------------------------------------------------------------ history operations
@@ -192,7 +207,8 @@ struct Op {
 
 const char* kOpNames[] = {"load-program", "run", "mmio-write", "senddata", "recvdata", "setsem", "clearsem", "masksem", "dma",
                           "ahbm-read16", "ahbm-write32", "datawrite", "snippet", "timer", "fifo", "trigger", "apbp-disable",
-                          "ahbm-config", "mmio-read"};
+                          "ahbm-config", "mmio-read", "a32-write", "a32-read", "program-read", "data-nobypass", "zpage", "dma-high-query",
+                          "ahbm-get", "mmiobase"};
 
 const u16 kWritable[] = {0x020, 0x022, 0x024, 0x026, 0x028, 0x02A, 0x02C, 0x02E, 0x030, 0x032, 0x034, 0x036, 0x038, 0x03A, 0x03C, 0x03E,
                          0x0C0, 0x0C4, 0x0C8, 0x0CC, 0x0CE, 0x0D0, 0x0D4, 0x0E2, 0x0E4, 0x0E6, 0x0E8, 0x0EA, 0x0EC, 0x0EE, 0x0F0, 0x0F2,
@@ -201,8 +217,51 @@ const u16 kWritable[] = {0x020, 0x022, 0x024, 0x026, 0x028, 0x02A, 0x02C, 0x02E,
                          0x2A2, 0x2BE, 0x2C6, 0x2CA, 0x322, 0x33E, 0x346, 0x34A, 0x100, 0x102, 0x118, 0x11C, 0x120, 0x122, 0x20E, 0x210,
                          0x180, 0x182, 0x186, 0x18E, 0x190, 0x001, 0x003, 0x7FE};
 
+// host accessors that only the "host bias" histories use (C11/C12 through both bindings)
+int g_host_bias = 0; // percent of operations taken from the host-accessor group
+Op make_host_op(Rng& g) {
+    Op o;
+    static const u32 edges[] = {0, 1, 0x7FFF, 0x8000, 0x8024, 0x8026, 0x8214, 0x87FF, 0x8800, 0xFFFF, 0x10000, 0x10001, 0x18000, 0x18024, 0x1FFFF};
+    unsigned s = (unsigned)g.below(100);
+    if (s < 25) {
+        o.kind = 19;
+        o.a = g.chance(1, 2) ? g.pick(edges) : (u32)g.below(0x20000);
+        o.b = (u16)g.bits(16);
+    } else if (s < 45) {
+        o.kind = 20;
+        o.a = g.chance(1, 2) ? g.pick(edges) : (u32)g.below(0x20000);
+    } else if (s < 55) {
+        o.kind = 21;
+        o.a = g.chance(1, 3) ? 0x20000 + g.pick(edges) : (u32)g.below(0x40000);
+    } else if (s < 70) { // 16-bit accessors without bypass on the storage registers of the window, and plain memory
+        o.kind = 22;
+        static const u16 cells[] = {0x8024, 0x8026, 0x8034, 0x8214, 0x8218, 0x1234, 0x7FFF, 0x8800, 0xFFFF};
+        o.a = g.pick(cells);
+        o.b = (u16)g.bits(16);
+        o.c = (u32)g.below(2);
+    } else if (s < 78) {
+        o.kind = 23;
+        o.a = g.chance(1, 3) ? 1 : 0;
+    } else if (s < 88) {
+        o.kind = 24;
+        o.a = (u32)g.below(8);
+        o.b = (u32)g.below(2);
+        o.c = (u16)g.bits(16);
+    } else if (s < 95) {
+        o.kind = 25;
+        o.a = (u32)g.below(3);
+        o.b = (u32)g.below(3);
+    } else {
+        o.kind = 26;
+        o.a = (u16)(g.below(64) << 10);
+    }
+    return o;
+}
+
 Op make_op(Rng& g, bool dirty_bias) {
     Op o;
+    if (g_host_bias && g.below(100) < (u64)g_host_bias)
+        return make_host_op(g);
     unsigned s = (unsigned)g.below(100);
     if (s < 8) {
         o.kind = 0;
@@ -363,6 +422,24 @@ void apply(Api& t, const Op& o) {
         t.MMIOWrite((u16)(0x0E2 + 6 * o.a), (u16)((o.b << 1) | (o.c << 4)));
         break;
     case 18: t.log.push_back(fmt("mmior %03x=%04x", o.a, t.MMIORead((u16)o.a))); break;
+    case 19: t.DataWriteA32(o.a, (u16)o.b); break;
+    case 20: t.log.push_back(fmt("a32r %05x=%04x", o.a, t.DataReadA32(o.a))); break;
+    case 21: t.log.push_back(fmt("progr %05x=%04x", o.a, t.ProgramRead(o.a))); break;
+    case 22:
+        if (o.c)
+            t.DataWrite((u16)o.a, (u16)o.b, false);
+        else
+            t.log.push_back(fmt("datar %04x=%04x", o.a, t.DataRead((u16)o.a, false)));
+        break;
+    case 23: t.MMIOWrite(0x112, (u16)o.a); break;
+    case 24: // select a channel, give it address high words, ask for channel 0's, look at the selector again
+        t.MMIOWrite(0x1BE, (u16)o.a);
+        t.MMIOWrite(0x1C2, (u16)(o.c & 0xF));
+        t.MMIOWrite(0x1C6, (u16)((o.c >> 4) & 0xF));
+        t.log.push_back(fmt("dmahigh%u=%04x sel=%04x", o.b, o.b ? t.DMAChan0GetDstHigh() : t.DMAChan0GetSrcHigh(), t.MMIORead(0x1BE)));
+        break;
+    case 25: t.log.push_back(fmt("ahbmget%u[%u]=%04x", o.a, o.b, t.AHBMGet((int)o.a, (u16)o.b))); break;
+    case 26: t.MMIOWrite(0x11E, (u16)o.a); break;
     }
 }
 
@@ -394,6 +471,8 @@ Obs observe(Api& t, bool full_mem) {
     }
     o.items.push_back({"api:semaphore", t.GetSemaphore()});
     o.items.push_back({"api:dma0srchigh", t.DMAChan0GetSrcHigh()});
+    o.items.push_back({"api:dma0dsthigh", t.DMAChan0GetDstHigh()});
+    o.items.push_back({"mmio:1be:after-query", t.MMIORead(0x1BE)});
     const u8* m = t.Mem();
     u64 h = 1469598103934665603ull;
     size_t from = full_mem ? 0 : 0x40000, to = full_mem ? 0x80000 : 0x40000 + 0x8000;
@@ -449,6 +528,9 @@ int main(int argc, char** argv) {
     Ctx ctx;
     ctx.parse(argc, argv, "C17");
     const std::string mode = ctx.mode.empty() ? "alloc" : ctx.mode;
+    static std::string prop = ctx.opts.count("prop") ? ctx.opts["prop"] : "C17";
+    ctx.prop = prop.c_str();
+    g_host_bias = (int)ctx.opt_u64("hostbias", 0);
 
     for (u64 c = 0; c < ctx.cases; ++c) {
         if (!ctx.selected(c))
@@ -572,7 +654,7 @@ int main(int argc, char** argv) {
             inst.push_back(std::make_unique<CApi>());
             inst[0]->Reset();
             inst[1]->Reset();
-            unsigned n = (unsigned)g.range(3, 16);
+            unsigned n = g_host_bias ? (unsigned)g.range(10, 60) : (unsigned)g.range(3, 16);
             for (unsigned k = 0; k < n && !bad; ++k) {
                 Op o = make_op(g, false);
                 if (o.kind == 12)
